@@ -72,6 +72,7 @@ type CharIndices<'a> =
     core::iter::Chain<bstr::CharIndices<'a>, core::iter::Once<(usize, usize, char)>>;
 
 /// Mapping between byte and character indices.
+#[derive(Clone)]
 pub struct ByteChar<'a>(core::iter::Peekable<core::iter::Enumerate<CharIndices<'a>>>);
 
 impl<'a> ByteChar<'a> {
@@ -156,7 +157,9 @@ pub fn regex<'a>(
             continue;
         }
         let match_names = c.iter().zip(re.capture_names());
-        let matches = match_names.filter_map(|(m, n)| Some(Match::new(&mut bc, m?, n)));
+        // capture groups start at or after the whole match, but not necessarily in increasing order
+        bc.char_of_byte(whole.start());
+        let matches = match_names.filter_map(|(m, n)| Some(Match::new(&mut bc.clone(), m?, n)));
         if mi {
             out.push(Part::Mismatch(&s[last_byte..whole.start()]));
             last_byte = whole.end();
